@@ -7,6 +7,7 @@
   thresholds, any rationals.
 -/
 import ScoresVerif.Lemmas.Roc
+import ScoresVerif.Lemmas.RocMW
 import ScoresVerif.Gen.Roc
 
 namespace SV.Props.C14
@@ -92,8 +93,7 @@ example : (⟨Fl.nan, Fl.fin 1, none⟩ : Triple).f = Fl.nan ∨ (⟨Fl.nan, Fl.
 
 /-! ## 2. values, monotonicity, the point at threshold 0 -/
 
-def podQ (cs : List Case) (t : Rat) : Rat := hitsW cs t / eventsW cs
-def pofdQ (cs : List Case) (t : Rat) : Rat := falseAlarmsW cs t / nonEventsW cs
+-- `podQ cs t = hitsW cs t / eventsW cs`, `pofdQ cs t = falseAlarmsW cs t / nonEventsW cs` (Lemmas/RocMW.lean)
 
 /-- POD is a number iff some event carries weight; otherwise it is 0/0 = NaN -/
 theorem pod_value {cs : List Case} (h : Nonneg cs) (t : Rat) :
@@ -153,8 +153,7 @@ theorem pod_no_event (cs : List Case) (t : Rat) (hE : eventsW cs = 0) (hH : hits
 
 /-! ## 3. AUC -/
 
-/-- the ROC points of the thresholds `ts`, as (POFD, POD) -/
-def points (cs : List Case) (ts : List Rat) : List (Rat × Rat) := ts.map fun t => (pofdQ cs t, podQ cs t)
+-- `points cs ts = ts.map fun t => (pofdQ cs t, podQ cs t)` — the ROC points as (POFD, POD)  (Lemmas/RocMW.lean)
 
 /-- `AUC = −trapezoid(POD, POFD) = Σ_k (POFD_k − POFD_{k+1}) (POD_k + POD_{k+1}) / 2` -/
 theorem auc_eq_trapezoid {cs : List Case} (hE : eventsW cs ≠ 0) (hN : nonEventsW cs ≠ 0) (ts : List Rat) :
@@ -196,14 +195,24 @@ theorem auc_mem_unit {cs : List Case} (h : Nonneg cs) {ts : List Rat} (hts : non
     linarith [(pofd_mem_unit h t).2]
 example : nonDecreasing (([0, 1/4, 1/4, 1] : List Rat).map Fl.fin) = true := by decide +kernel
 
-/-
-  ◇ stretch, not proved here (carried by the oracle in exact rational arithmetic, incl. the exhaustive enumeration of all
-  forecast / observation vectors with n ≤ 5 over a 4-value pool):
+/-! ## 4. Mann–Whitney -/
 
-  theorem auc_eq_mannWhitney_stmt {cs : List Case} (h : Nonneg cs) {ts : List Rat}
-      (hts : nonDecreasing (ts.map Fl.fin) = true) (h0 : ∀ c ∈ cs, ts.head! ≤ c.f) (hall : ∀ c ∈ cs, c.f ∈ ts)
-      (htop : ∀ c ∈ cs, c.f < ts.getLast!) (hE : eventsW cs ≠ 0) (hN : nonEventsW cs ≠ 0) :
-      Fl.fin (trapArea (points cs ts)) = mannWhitney cs
--/
+/-- When the thresholds (accepted by the guard) contain every forecast value of a valid pair and a value above the largest
+    forecast — they then start at or below the smallest forecast, e.g. at 0 — the AUC returned by the model equals the
+    (weighted) Mann–Whitney probability that a random event received a higher forecast than a random non-event, ties
+    counting one half.  Needs an event and a non-event of non-zero total weight (otherwise both sides are 0/0). -/
+theorem auc_eq_mannWhitney {cs : List Case} {ts : List Rat} (hts : nonDecreasing (ts.map Fl.fin) = true)
+    (hall : ∀ c ∈ cs, c.f ∈ ts) (htop : ∀ c ∈ cs, ∃ t ∈ ts, c.f < t)
+    (hE : eventsW cs ≠ 0) (hN : nonEventsW cs ≠ 0) :
+    auc (cs.map ofCase) (ts.map Fl.fin) = mannWhitney cs := by
+  rw [auc_eq_trapezoid hE hN]
+  exact trapArea_eq_mannWhitney (pairwise_of_nonDecreasing hts) hall htop hE hN
+example : let cs : List Case := [⟨1/2, true, 1⟩, ⟨1/4, false, 2⟩, ⟨1/2, false, 1⟩]
+    let ts : List Rat := [0, 1/4, 1/2, 1]
+    nonDecreasing (ts.map Fl.fin) = true ∧ (∀ c ∈ cs, c.f ∈ ts) ∧ (∀ c ∈ cs, ∃ t ∈ ts, c.f < t) ∧
+    eventsW cs ≠ 0 ∧ nonEventsW cs ≠ 0 := by
+  refine ⟨by decide +kernel, ?_, ?_, by decide +kernel, by decide +kernel⟩
+  · intro c hc; simp at hc; rcases hc with rfl | rfl | rfl <;> simp
+  · intro c hc; simp at hc; rcases hc with rfl | rfl | rfl <;> exact ⟨1, by simp, by norm_num⟩
 
 end SV.Props.C14
